@@ -22,9 +22,10 @@ META = {
         "a partition of request shapes, accepts exactly: version marker present, non-empty string method, params "
         "absent or list/dict/tuple; C05.8 (shared with C06.1 / C06.2 / C06.4) the client surfaces every error reply as a ProtocolError "
         "carrying the code: check_for_errors raises ProtocolError((code, message)) for an error object, every consumer of a reply "
-        "checks it first, and _run_request returns None only for an empty reply body (an error answered to a notification is parsed too).; C05.9 (shared) the error envelope carries the error object in both protocol versions (imported C14.1), and a request with an id - 0 and 0.0 included - is not treated as a notification, so its failure is answered (imported C04.3) C05.10 (imported from C13.2) the per-request copy of the configuration (made for 1.0 requests on a 2.0 server) carries every field of the server's Config: the error reply of such a request is built from that copy, so a field the copy drops falls back to its default for exactly those requests. C05.11 (imported from C02.6 / C17.3) the error reply reaches the client as the ProtocolError it encodes: the backend emits ASCII only and decodes with json.loads itself, and both sides decode the joined bytes once (an error message echoing multi-byte text survives any chunking)."),
+        "checks it first, and _run_request returns None only for an empty reply body (an error answered to a notification is parsed too).; C05.9 (shared) the error envelope carries the error object in both protocol versions (imported C14.1), and a request with an id - 0 and 0.0 included - is not treated as a notification, so its failure is answered (imported C04.3) C05.10 (imported from C13.2) the per-request copy of the configuration (made for 1.0 requests on a 2.0 server) carries every field of the server's Config: the error reply of such a request is built from that copy, so a field the copy drops falls back to its default for exactly those requests. C05.11 (imported from C02.6 / C17.3) the error reply reaches the client as the ProtocolError it encodes: the backend emits ASCII only and decodes with json.loads itself, and both sides decode the joined bytes once (an error message echoing multi-byte text survives any chunking). C05.12 (imported from C14.4) loads() hands the body to the JSON parser as received (`load(jloads(data), config)`, the empty-body test apart): a body that is not a JSON text - e.g. one wrapped in characters Python's str.strip() removes but JSON does not allow - is a parse error, answered -32700."),
     "does_not_decide": "which texts the JSON backend rejects; exact message texts.",
-    "rules": {"C05.11": "imported C02.6 (backend options, loader), C17.3 (raw accumulation, one decode)",
+    "rules": {"C05.12": "imported C14.4 (provenance of what the wrappers forward)",
+              "C05.11": "imported C02.6 (backend options, loader), C17.3 (raw accumulation, one decode)",
               "C05.10": "imported C13.2 (Config.copy carries every field)",
               "C05.9": "imported C14.1, C04.3", 
         "C05.1": "site classification by handler / dominating branch; literal folding vs spec table A.1",
@@ -391,6 +392,18 @@ def check(ck):
                    q.loc(site.fi, site.node))
     ck.floor("C05.4", 5)
 
+    # ---- C05.4b the error reply can be marshaled: no request-derived `data` on the dispatcher's own faults -------------------------
+    # Fault.data is emitted as it is (it does not go through jsonclass.dump): an argument the translator turned into an object
+    # (Decimal, a bean) makes the final jdumps fail, and the reply degrades to -32603 with id null
+    for site in all_sites:
+        de = site.arg("data", 4)
+        if de is None or de[2] is None or (isinstance(de[2], ast.Constant)):
+            continue
+        ck.bad("C05.4", "%s: Fault(%s) data=%s" % (q.fn(site.fi), site.code(), dump(de[2])[:40]),
+               "the error object carries `%s`, taken from the request as loaded (objects built by the class translator included) and not "
+               "converted back: the reply cannot be serialised for such arguments and the client receives -32603 / id null instead of "
+               "this error" % dump(de[2])[:50], q.loc(site.fi, site.node))
+
     # ---- C05.5 mismatch vs body -------------------------------------------------------------
     for (n, c) in q.call_sites(prog, fd, lambda r, c: r == "class:jsonrpc.Fault"):
         code = fold_code(prog, fd, kwarg(c, "code", 0)) if kwarg(c, "code", 0) is not None else None
@@ -509,3 +522,8 @@ def check(ck):
     _common.import_rules(ck, _c02t5, {"C02.6": "C05.11"})
     _common.import_rules(ck, _c17t5, {"C17.3": "C05.11"})
     ck.floor("C05.11", 6)
+
+    # ---- C05.12 the parser sees the body as received (shared with C14.4) ---------------------------------------------------------
+    from rules import c14 as _c14w
+    _common.import_rules(ck, _c14w, {"C14.4": "C05.12"})
+    ck.floor("C05.12", 4)
